@@ -85,6 +85,8 @@ func (e *Env) NewModule(symbol string) (*Env, error) {
 
 // SetExternalLookup sets an external lookup
 func (e *Env) SetExternalLookup(externalLookup ExternalLookup) {
+	e.rwMutex.Lock()
+	defer e.rwMutex.Unlock()
 	e.externalLookup = externalLookup
 }
 
